@@ -126,7 +126,7 @@ package gorums
 //@   requires len(c) > 0 && c[0] != nil && c[0].mgr != nil
 
 //@ func (RawConfiguration).QuorumCall
-//@   props C01 C02 C06 C05 C08 C09
+//@   props C01 C02 C03 C05 C06 C07 C08 C09
 //@   blocks until ctx
 //@   opt effect-tags=C08.a
 //@   nopanic C01 C02
@@ -205,7 +205,7 @@ package gorums
 //@   ensures[C02.c] typeis(err, "QuorumCallError") && err.(QuorumCallError).cause != Incomplete ==> done(ctx) && err.(QuorumCallError).cause == ctxErr(ctx)
 
 //@ func (RawConfiguration).AsyncCall
-//@   props C01 C02 C06 C05 C08 C09
+//@   props C01 C02 C03 C05 C06 C08 C09
 //@   blocks until ctx
 //@   opt effect-tags=C08.a
 //@   nopanic C01 C02
@@ -241,7 +241,7 @@ package gorums
 //@   ensures[C02.f] result != nil && spawned == 1
 
 //@ func (RawConfiguration).handleAsyncCall
-//@   props C01 C02 C08 C18
+//@   props C01 C02 C07 C08 C18
 //@   blocks until ctx
 //@   opt effect-tags=C08.a
 //@   nopanic C01 C02
@@ -411,7 +411,7 @@ package gorums
 //@   ensures c.donech == old(c.donech)
 
 //@ func (RawConfiguration).CorrectableCall
-//@   props C11 C06 C05 C08 C09
+//@   props C11 C03 C05 C06 C08 C09
 //@   blocks until ctx
 //@   opt effect-tags=C08.a
 //@   nopanic C11
@@ -447,7 +447,7 @@ package gorums
 //@   ensures[C11.e] result != nil && spawned == 1
 
 //@ func (RawConfiguration).handleCorrectableCall
-//@   props C11 C08 C18
+//@   props C11 C07 C08 C09 C18
 //@   blocks until ctx
 //@   opt effect-tags=C08.a
 //@   nopanic C11
@@ -828,7 +828,7 @@ package gorums
 //@   opt effect-tags=C18.b
 
 //@ func (*channel).sender
-//@   props C03 C07 C10 C12 C18
+//@   props C03 C05 C07 C10 C12 C18
 //@   mode concurrent
 //@   requires c != nil && c.node != nil && c.parentCtx != nil && streamDownErr != nil
 //@   ghost pending Bool = false
